@@ -106,6 +106,63 @@ def run_wiring(n, kind, focus='sources'):
     return {'sources': ob_sources, 'settings': ob_settings, 'output': ob_output}[focus]
 
 
+def run_pipeline(focus='amounts'):
+    """report = totals(classify(parse(sources))), end to end inside the real cmd_run: the REAL parse_generic_csv / parse_amount /
+    normalize_merchant / analyze_transactions run on two sources whose amount cells go through the float() contract stub (symbolic
+    exact-real values); what export_json is handed must hold exactly the figures the property dictates."""
+    W.rules_path('rules')
+
+    def core(v0=12.5, v1=-3.0, v2=7.25, cd0=False, cd1=True, neg1=False, hdr1=True):
+        from tally.commands import run as runmod
+        from harness.C05 import ref_amount_text
+        reset_tally_caches()
+        flags = [{'supplemental': False, 'exists': True, 'raises': False, 'comma_decimal': cd0},
+                 {'supplemental': False, 'exists': True, 'raises': False, 'comma_decimal': cd1, 'negate': neg1, 'no_header': not hdr1}]
+        bodies = ['1.234,5', '7', '3,5']
+        rows = {0: [['date', 'description', 'amount'], ['01/05/2024', 'AMAZON 1', bodies[0]], ['01/06/2024', 'COFFEE BAR', bodies[1]]],
+                1: [['01/07/2024', 'X AMAZON PRIME', bodies[2]]] if not hdr1 else [['h', 'h', 'h'], ['01/07/2024', 'X AMAZON PRIME', bodies[2]]]}
+        rec = W.Recorder(flags, rule_mode='first_match', rules_kind='rules', views=False, real_analyze=True,
+                         real_parse={'rows': rows, 'vals': {0: [v0, v1], 1: [v2]}})      # a header record never reaches float()
+        args = W.run_args(format='json', summary=False, output='/budget/out.html')
+        code = W.run_command(runmod, 'cmd_run', args, rec)
+        outs = [c for c in rec.calls if c[0] == 'export_json']
+        if code not in (None, 0) or len(outs) != 1:
+            return post(False)
+        stats = outs[0][1][0]
+        amounts = [v0, v1, (-v2 if neg1 else v2)]
+        ok = stats['count'] == 3
+        pos = sum(a for a in amounts if a > 0)
+        neg = sum(-a for a in amounts if a < 0)
+        ok = ok and stats['spending_total'] == pos and stats['credits_total'] == neg and stats['income_total'] == 0
+        ok = ok and stats['transfers_in'] == 0 and stats['transfers_out'] == 0 and stats['investment_total'] == 0
+        ok = ok and stats['cash_flow'] == neg - pos
+        bm = stats['by_merchant']
+        ok = ok and sorted(bm) == ['Coffee Bar', 'General'] and bm['General']['count'] == 2 and bm['Coffee Bar']['count'] == 1
+        ok = ok and bm['General']['category'] == 'Shopping' and bm['Coffee Bar']['category'] == 'Unknown'
+        ok = ok and sorted(bm['General']['payments']) == sorted([amounts[0], amounts[2]]) and bm['Coffee Bar']['payments'] == [amounts[1]]
+        # each source's cells were normalised under ITS OWN decimal convention
+        want = {0: [ref_amount_text(bodies[0], ',' if cd0 else '.')[1], ref_amount_text(bodies[1], ',' if cd0 else '.')[1]],
+                1: [ref_amount_text(bodies[2], ',' if cd1 else '.')[1]]}
+        ok = ok and [(i, fl) for (i, fl, _d) in rec.float_args] == [(0, want[0]), (1, want[1])]
+        return post(ok)
+
+    def ob_amounts(v0: float, v1: float, v2: float, neg1: bool) -> bool:
+        """
+        pre: v0 != 0 and v1 != 0 and v2 != 0
+        pre: -1000000.0 < v0 < 1000000.0 and -1000000.0 < v1 < 1000000.0 and -1000000.0 < v2 < 1000000.0
+        post: _
+        """
+        return core(v0=v0, v1=v1, v2=v2, neg1=neg1)
+
+    def ob_settings(cd0: bool, cd1: bool, neg1: bool, hdr1: bool, v2: float) -> bool:
+        """
+        pre: 0.0 < v2 < 1000000.0
+        post: _
+        """
+        return core(cd0=cd0, cd1=cd1, neg1=neg1, hdr1=hdr1, v2=v2)
+    return {'amounts': ob_amounts, 'settings': ob_settings}[focus]
+
+
 class _OsPath:
     def __init__(self, table):
         import os
@@ -195,6 +252,10 @@ def obligations(tier, seed):
                 obs.append(Obligation(id=f'run-n{n}-{kind}-{focus}', factory='run_wiring', params={'n': n, 'kind': kind, 'focus': focus}, timeout=170 if q else 1200,
                                       group='cmd_run wiring', bounds=f'{n} sources, rules file kind {kind}; symbolic ' + {'sources': 'supplemental / file-exists / parser-raises flags per source', 'settings': 'decimal separator per source, rule mode, one supplemental flag (views on, format json)',
                                                                                                                          'output': 'rule mode, views flag, output format (4), one supplemental flag, one file-exists flag'}[focus]))
+    for focus in ['amounts', 'settings']:
+        obs.append(Obligation(id=f'pipeline-{focus}', factory='run_pipeline', params={'focus': focus}, reals=True, opaque=True, timeout=170 if q else 900,
+                              group='end-to-end figures', bounds='real cmd_run -> parse_generic_csv -> normalize_merchant -> analyze_transactions on 2 sources / 3 rows (csv reader, float(), strptime stubbed by contract); symbolic '
+                              + ('exact-real amounts of the three rows and the sign override of the second source' if focus == 'amounts' else 'decimal convention per source, sign and header overrides of the second source, one amount')))
     for focus in ['overrides', 'files']:
         obs.append(Obligation(id=f'load-config-{focus}', factory='load_config_ob', params={'focus': focus}, timeout=170 if q else 900, group='load_config',
                               bounds='2 sources with the same format text; symbolic ' + ('delimiter/header/negate overrides per source' if focus == 'overrides' else 'rule_mode (absent/first_match/most_specific/invalid), merchants_file present/exists, legacy CSV exists')))
